@@ -1626,7 +1626,7 @@ def r07_6(ctx):
                 if not pw[0]:
                     return [(False, pw[1], b, bb)]
                 return [(ok_ and True, f"first {pw[2]} bytes of, or all of: " + det_, sb_, sbb_) for ok_, det_, sb_, sbb_ in classify(b, bb, pw[3], depth + 1)]
-            if cb and cb.raw.get("ret_ty", "").startswith("std::result::Result<&[u8], std::io::Error>") and len(src["args"]) == 2:
+            if common.is_prefix_accessor(lib, cb) and len(src["args"]) == 2:
                 c = trace(b, src["args"][1])
                 v = c.origin[1].get("v") if c.origin and c.origin[0] == "const" else None
                 ok = isinstance(v, int) and v >= need and any(s[0] == "downcast" and s[1] in ("Continue", "Ok") for s in tr.steps)
